@@ -108,9 +108,25 @@ func Gen(r *fw.RNG, o Opts) *rs.TypeSystem {
 			}
 			if t.StructRepr == "map" && r.Bool() {
 				t.Renames = map[string]string{}
-				for _, f := range t.Fields {
-					if r.Bool() {
-						t.Renames[f.Name] = "r_" + f.Name
+				switch n := len(t.Fields); {
+				case n >= 2 && r.Chance(1, 4):
+					// serial names that are other fields' type-level names: a rotation of the names
+					off := 1 + r.Intn(n-1)
+					for i, f := range t.Fields {
+						t.Renames[f.Name] = t.Fields[(i+off)%n].Name
+					}
+				case n >= 2 && r.Chance(1, 4):
+					// a chain: f0 is written as "f1", f1 as "f2", ..., the last renamed one gets a fresh name
+					k := 1 + r.Intn(n-1)
+					for i := 0; i < k; i++ {
+						t.Renames[t.Fields[i].Name] = t.Fields[i+1].Name
+					}
+					t.Renames[t.Fields[k].Name] = "r_" + t.Fields[k].Name
+				default:
+					for _, f := range t.Fields {
+						if r.Bool() {
+							t.Renames[f.Name] = "r_" + f.Name
+						}
 					}
 				}
 			}
